@@ -21,7 +21,7 @@
      every child ([idle_ev], [idle_cnt]).  Without the guard the statement
      is false of the code: C09_ok_exactly_one_refuted,
      C09_count_exactly_one_refuted (finding K1). *)
-From Moc Require Import Base Match MatchProofs Merge MergeProofs.
+From Moc Require Import Base Match MatchProofs Merge MergeProofs MergeOracleProofs.
 Open Scope Z_scope.
 
 (** exactly one OK carrying the event's id once every child has replied, none
@@ -169,6 +169,44 @@ Theorem C09_refuting_history_overlaps : ~ no_overlap 2 k1_trace.
 Proof. exact k1_trace_overlaps. Qed.
 Print Assumptions C09_refuting_history_overlaps.
 
+(** All of the above in one statement over whole histories: the boolean oracle
+    [c09_oracle] — the text of C09 as a judgement of an observed history: a
+    child's reply answers the oldest request with that id the child has not
+    answered yet; when the last child's reply to a request arrives, exactly one
+    aggregated reply comes out at that step (an OK with the request's id,
+    accepting iff every child accepted, a rejecting one beginning with the
+    lowest-numbered rejecting child's text; a COUNT with the maximum of the
+    children's counts), nothing comes out at any other step, a CLOSE or a REQ
+    changes nothing — accepts what the model does on every gated history of
+    every length, for every number of children, that keeps the discipline
+    [c09_disciplined]: a request is submitted only while no request of that
+    kind with the same id is in flight, and a child answers a request in flight
+    at most once (replies nobody waits for are allowed).  This is the oracle the
+    correspondence check applies to the implementation.  Outside the discipline
+    the statement is false of this code (finding K1, below). *)
+Theorem C09_model_satisfies_oracle : forall n t,
+  (2 <= n)%nat -> trace_ok n t -> c09_disciplined n t -> c09_oracle n (obs_of (init n) t) = true.
+Proof. intros n t Hn. apply model_satisfies_c09_oracle. lia. Qed.
+Print Assumptions C09_model_satisfies_oracle.
+
+(** so a disciplined observation that the model reproduces step by step is
+    one the oracle accepts *)
+Theorem C09_agreement_implies_oracle : forall n t,
+  (2 <= n)%nat -> trace_ok n (List.map fst t) -> c09_disciplined n (List.map fst t) ->
+  model_agrees (init n) t = true -> c09_oracle n t = true.
+Proof. intros n t Hn. apply agreement_implies_c09_oracle. lia. Qed.
+Print Assumptions C09_agreement_implies_oracle.
+
+(** the discipline cannot be dropped: on the K1 history the oracle rejects what
+    the model (and the implementation) does *)
+Theorem C09_oracle_rejects_k1 :
+  trace_ok 2 k1_trace /\ ~ c09_disciplined 2 k1_trace /\ c09_oracle 2 (obs_of (init 2) k1_trace) = false.
+Proof.
+  split; [exact k1_trace_ok|]. split; [|vm_compute; reflexivity].
+  unfold c09_disciplined. vm_compute. discriminate.
+Qed.
+Print Assumptions C09_oracle_rejects_k1.
+
 (* ------------------------------------------------------------------ *)
 (** Non-vacuity: a history with two children in which the id [x] is
     submitted twice, one after the other; it meets the guard, and the model
@@ -212,3 +250,24 @@ Example C09_example_run :
   [None; None; Some (SOk (mkOk ex_id false [] (ok_message ex_ng)));
    None; None; Some (SOk (mkOk ex_id true [] []))].
 Proof. vm_compute. reflexivity. Qed.
+
+(** ... and it keeps the discipline of [C09_model_satisfies_oracle]; so does a
+    history with two requests in flight under different ids, a CLOSE and a REQ
+    with those ids in between, and a late reply nobody waits for *)
+Example ex_id2 : str := [121]%N.
+Example ex_t2 : list input :=
+  [CEvent ex_id; CCount ex_id2; CEvent ex_id2; Child 1 (SOk ex_ng); CClose ex_id;
+   Child 0 (SCount (mkCnt ex_id2 3 None)); CReq ex_id2 []; Child 0 (SOk (mkOk ex_id2 true [] []));
+   Child 0 (SOk ex_ok); CClose ex_id2; Child 1 (SCount (mkCnt ex_id2 7 None));
+   Child 1 (SOk (mkOk ex_id2 true [] [])); Child 1 (SOk ex_ok)].
+
+Example C09_example_discipline :
+  c09_disciplined 2 ex_t /\ trace_ok 2 ex_t2 /\ c09_disciplined 2 ex_t2 /\
+  outs (init 2) ex_t2 =
+  [None; None; None; None; None; None; None; None;
+   Some (SOk (mkOk ex_id false [] (ok_message ex_ng))); None;
+   Some (SCount (mkCnt ex_id2 7 None)); Some (SOk (mkOk ex_id2 true [] [])); None].
+Proof.
+  split; [vm_compute; reflexivity|]. split; [unfold trace_ok, ex_t2; repeat constructor|].
+  split; vm_compute; reflexivity.
+Qed.
